@@ -64,6 +64,15 @@ def execute(case, ctx):
     ctx.sample({"env": name, "cfg": case["cfg"], "src": case["src"], "actions_row0": A[0].tolist(),
                 "reward_row0": float(rew[0])})
 
+    # the reward is a function of (state, actions): asking for it again on the SAME tensordict (as _select_best followed by
+    # the policy's own get_reward call does, or any caller that scores a rollout twice) must return the same value
+    td_same = ep.td.clone()
+    ra = ctx.guard(env.get_reward, td_same, A.clone(), what=f"get_reward|{name}|{sl}").reshape(-1).double()
+    rb = ctx.guard(env.get_reward, td_same, A.clone(), what=f"get_reward_again|{name}|{sl}").reshape(-1).double()
+    same = ((ra - rb).abs() <= 1e-9 * (1 + ra.abs())) | (torch.isnan(ra) & torch.isnan(rb))
+    ctx.check(bool(same.all()), f"{name}|{sl}|reward_changes_when_asked_twice",
+              f"get_reward on the same tensordict returned {ra.tolist()} and then {rb.tolist()}", {"actions": A.tolist()})
+
     # envs whose reward is a function of instance + actions are also scored by the library with a td other than the
     # final rollout state (tasks/eval.py: env.get_reward(batchify(td_init, n), actions)): same value required
     if name in STATELESS_REWARD:
@@ -127,7 +136,12 @@ def execute_sched(case, ctx):
     if ep.dead_end is not None or ep.cap_hit or ep.T == 0:
         return
     A = ep.actions_tensor()
-    rew = ctx.guard(env.get_reward, ep.td.clone(), A.clone(), what=f"get_reward|{name}|{sl}").reshape(-1).double()
+    td_same = ep.td.clone()
+    rew = ctx.guard(env.get_reward, td_same, A.clone(), what=f"get_reward|{name}|{sl}").reshape(-1).double()
+    rew2 = ctx.guard(env.get_reward, td_same, A.clone(), what=f"get_reward_again|{name}|{sl}").reshape(-1).double()
+    ctx.check(bool((((rew - rew2).abs() <= 1e-9 * (1 + rew.abs())) | (torch.isnan(rew) & torch.isnan(rew2))).all()),
+              f"{name}|{sl}|reward_changes_when_asked_twice",
+              f"get_reward on the same tensordict returned {rew.tolist()} and then {rew2.tolist()}", {"actions": A.tolist()})
     for b in range(len(insts)):
         acts = A[b].tolist()
         if name in ("fjsp", "jssp", "ffsp"):
